@@ -121,7 +121,7 @@ fn main() {
         "thorough" => Tier::Thorough,
         _ => usage(),
     };
-    let budget_s: u64 = std::env::var("VERIF_BUDGET_S").ok().and_then(|s| s.parse().ok()).unwrap_or(if tier == Tier::Quick { 45 } else { 900 });
+    let budget_s: u64 = std::env::var("VERIF_BUDGET_S").ok().and_then(|s| s.parse().ok()).unwrap_or(if tier == Tier::Quick { 120 } else { 2400 });
     let cfg = RunCfg { id: id.clone(), tier, seed, threads, budget: Duration::from_secs(budget_s), started: Instant::now() };
     if let Err(e) = hcv::refmodel::bigu::selftest().and_then(|_| hcv::refmodel::ntt::selftest_fast()) {
         eprintln!("refmodel selftest FAILED: {e}");
